@@ -46,3 +46,37 @@ package tensor
 //@   ensures [no_mask] err == nil && len(t.mask) != total ==> isnil(asptr("tensor.Dense", retVal).mask)
 //@   ensures [source] t.Raw == old(t.Raw) && t.shape == old(t.shape) && t.strides == old(t.strides) && unchanged(t.shape) && unchanged(t.strides) && unchanged(slices) && t.mask == old(t.mask)
 //@   assigns nothing
+
+// ---- copies: the storage-order copy is only chosen when storage order is logical order on both sides ----
+// ghost field rawcopy(dst): 1 when the last copy into dst paired storage positions (copyDense), 0 when it paired
+// logical positions through iterators (storage.CopyIter)
+
+//@ func storage.CopyIter
+//@   trusted
+//@   params t dst src diter siter
+//@   ensures [by_position] gh("rawcopy", dst) == 0
+//@   assigns whole(dst.Raw), gh("rawcopy", dst)
+
+//@ func tensor.FlatIteratorFromDense
+//@   trusted
+//@   ensures [some] !isnil(result)
+//@   assigns nothing
+
+//@ func tensor.copyDenseIter
+//@   props C04 C16
+//@   config devirt tensor.DenseTensor=*tensor.Dense,tensor.MaskedTensor=*tensor.Dense
+//@   config panics allowed
+//@   requires [dyn] typeis(dst, "*tensor.Dense") && typeis(src, "*tensor.Dense")
+//@   requires [no_mask_yet] cap(asptr("tensor.Dense", dst).mask) == 0
+//@   ensures [raw_only_when_flat] result1 == nil && gh("rawcopy", asptr("tensor.Dense", dst)) == 1 ==> old(flatOK(asptr("tensor.Dense", dst)) && flatOK(asptr("tensor.Dense", src)) && sameOrder(asptr("tensor.Dense", dst), asptr("tensor.Dense", src)))
+//@   ensures [mode_known] result1 == nil ==> gh("rawcopy", asptr("tensor.Dense", dst)) == 0 || gh("rawcopy", asptr("tensor.Dense", dst)) == 1
+//@   ensures [source] asptr("tensor.Dense", src).Raw == old(asptr("tensor.Dense", src).Raw)
+//@   assigns whole(asptr("tensor.Dense", dst).Raw), asptr("tensor.Dense", dst).mask, whole(asptr("tensor.Dense", dst).mask), gh("rawcopy", asptr("tensor.Dense", dst))
+
+//@ func tensor.Dense.Materialize
+//@   props C04
+//@   requires [dims] forall i :: 0 <= i && i < len(t.shape) ==> t.shape[i] >= 0
+//@   ensures [plain_is_self] !old(isViewLike(t)) ==> asptr("tensor.Dense", result) == t
+//@   ensures [copy] old(isViewLike(t)) ==> typeis(result, "*tensor.Dense") && fresh(asptr("tensor.Dense", result)) && fresh(asptr("tensor.Dense", result).Raw)
+//@   ensures [source] t.Raw == old(t.Raw) && t.shape == old(t.shape) && t.strides == old(t.strides) && unchanged(t.shape) && unchanged(t.strides)
+//@   assigns nothing
